@@ -10,7 +10,7 @@
     writer_exception.go / reader_exception.go  NewWriterException / newException
   The encoder cores (everything after the front-end decisions) are abstract parameters returning
   `Res` of a module grid / 1-D code.  Mirrors the code AFTER the repairs of D13, D14 and of the
-  negative-QR-margin / ErrorCorrectionLevel-range defects found by the C12 oracle.
+  negative-QR-margin / ErrorCorrectionLevel-range / Code 128 FORCE_CODE_SET defects found by the C12 oracle.
   Tied to /repo by the `c12` correspondence suite.  Core Lean only.
 -/
 import Gzx.Model.Render
@@ -213,7 +213,8 @@ def encode1D (cfg : OneDCfg) (content : List Nat) (fmt : Nat) (width height : In
       | .ok code => render1D code width height margin
 
 /-- head of `code128Encoder.encodeWithHints`: rune count 1..80, then
-    `switch s := codeSetHint.(string); s` — an UNCHECKED assertion: a non-string FORCE_CODE_SET panics -/
+    `switch s, _ := codeSetHint.(string); s` (repaired: the assertion is checked, a non-string value is "" and
+    takes the default branch: an error) -/
 def code128Core (runeCount : List Nat → Nat) (inner : List Nat → Hints → Res (List Bool))
     (content : List Nat) (hints : Hints) : Res (List Bool) :=
   let length := runeCount content
@@ -224,7 +225,7 @@ def code128Core (runeCount : List Nat → Nat) (inner : List Nat → Hints → R
     | some (.str s) =>
       if s = [65] ∨ s = [66] ∨ s = [67] then inner content hints
       else .error (newWriterException [lit, .str s])
-    | some _ => .error (.panic "interface conversion: interface {} is not string")
+    | some v => .error (newWriterException [lit, v])     -- `s, _ := codeSetHint.(string)`: "" → default branch
 
 /-- `upcAWriter.Encode`: format check, then the EAN-13 writer on "0" + contents -/
 def encodeUPCA (ean13 : OneDCfg) (content : List Nat) (fmt : Nat) (width height : Int) (hints : Hints) : Res Image :=
